@@ -80,7 +80,8 @@ func GenGraph(r *Rand, nblocks int) (*Graph, error) {
 	g := &Graph{Blocks: map[string][]byte{}, Vals: map[string]Val{}}
 	for i := 0; i < nblocks; i++ {
 		v := genTreeWithLinks(r, g, 0)
-		if _, err := g.AddBlock(v); err != nil {
+		// now and then an INLINE block: a link whose multihash is the identity function, the digest being the block itself
+		if _, err := g.addBlock(v, r.Chance(1, 6)); err != nil {
 			return nil, err
 		}
 	}
@@ -89,7 +90,9 @@ func GenGraph(r *Rand, nblocks int) (*Graph, error) {
 }
 
 // AddBlock stores v as a dag-cbor block and returns its CID bytes.
-func (g *Graph) AddBlock(v Val) ([]byte, error) {
+func (g *Graph) AddBlock(v Val) ([]byte, error) { return g.addBlock(v, false) }
+
+func (g *Graph) addBlock(v Val, inline bool) ([]byte, error) {
 	n, err := BuildBasic(v, nil)
 	if err != nil {
 		return nil, err
@@ -98,7 +101,11 @@ func (g *Graph) AddBlock(v Val) ([]byte, error) {
 	if err := dagcbor.Encode(n, &buf); err != nil {
 		return nil, err
 	}
-	sum, err := mh.Sum(buf.Bytes(), mh.SHA2_256, -1)
+	code := uint64(mh.SHA2_256)
+	if inline && buf.Len() <= 120 {
+		code = mh.IDENTITY
+	}
+	sum, err := mh.Sum(buf.Bytes(), code, -1)
 	if err != nil {
 		return nil, err
 	}
